@@ -675,15 +675,40 @@ static int run_c06(Prng &r, int kind_forced) {
 // C16 — enumerated faults: tag corruption, misdirected images; histories with unsupported calls
 // ====================================================================================================
 static std::map<int, std::string> g_image_cache; // kind -> valid image (built lazily, ref phase)
+static bool probe_build(int kind, uint32_t set, int pidx) {
+  fflush(g_out);
+  pid_t pid = fork();
+  if (pid == 0) {
+    g_in_child = true; g_death_spec = nullptr;
+    int nul = open("/dev/null", O_WRONLY); dup2(nul, 2);
+    arm_watchdog(5.0);
+    Triple t = make_triple(set, kind, pidx);
+    StringDictionary *d = build_dict(kind, t.ss.v, t.p);
+    std::ostringstream os(std::ios::out | std::ios::binary); d->save(os);
+    std::string img = os.str() + std::string(16, '\0');
+    ChunkPolicy whole; whole.small = 0; whole.big = 0;
+    LoadOut lo = load_image(kind, img, 0, whole, 1, false);
+    _exit(lo.d ? 0 : 1);
+  }
+  int status = 0; waitpid(pid, &status, 0);
+  return WIFEXITED(status) && WEXITSTATUS(status) == 0;
+}
+// a valid image of the kind: the first of a fixed list of small catalogue entries whose build, save
+// and reload survive in isolation (some entries trip over pure-input defects of the tree)
 static const std::string &valid_image(int kind) {
   auto it = g_image_cache.find(kind);
   if (it != g_image_cache.end()) return it->second;
   begin("ref", std::string("build-valid-image-") + kind_name(kind));
-  Triple t = make_triple(5, kind, 2); // a fixed small catalogue entry
-  StringDictionary *d = build_dict(kind, t.ss.v, t.p);
-  std::string img = save_image(d, 4096);
-  delete d;
-  return g_image_cache[kind] = img;
+  static const int cand[][2] = {{5, 2}, {0, 0}, {9, 3}, {13, 6}, {22, 1}, {30, 4}, {41, 7}, {2, 5}};
+  for (auto &c : cand) {
+    if (!probe_build(kind, (uint32_t)c[0], c[1])) continue;
+    Triple t = make_triple((uint32_t)c[0], kind, c[1]);
+    StringDictionary *d = build_dict(kind, t.ss.v, t.p);
+    std::string img = save_image(d, 4096);
+    delete d;
+    return g_image_cache[kind] = img;
+  }
+  return g_image_cache[kind] = std::string(); // no candidate survives: the fault runs of this kind are skipped
 }
 static bool known_tag(uint32_t v) { for (int k = 0; k < K_COUNT; k++) if (kind_tag(k) == v) return true; return false; }
 
@@ -711,6 +736,7 @@ static int run_c16(uint64_t index, Prng &r, int sampled_per_block) {
     g_kinds = kind_name(kind); g_shape = "tag-corruption/block" + std::to_string(blk);
     g_spec += "|part=A|kind=" + std::string(kind_name(kind)) + "|opt=" + std::to_string(opt) + "|block=" + std::to_string(blk) + "|lap=" + std::to_string(lap);
     const std::string &img = valid_image(kind);
+    if (img.empty()) { emit("precondition_failed", "no_valid_image", kind_name(kind)); return 0; }
     std::vector<uint32_t> tags;
     if (blk < 16) for (uint32_t v = 64u * (uint32_t)blk; v < 64u * (uint32_t)blk + 64; v++) tags.push_back(v);
     else if (blk == 16) { for (int k = 0; k < K_COUNT; k++) { uint32_t t = kind_tag(k); tags.push_back(t + 1); tags.push_back(t - 1); for (int bit = 0; bit < 32; bit++) tags.push_back(t ^ (1u << bit)); } tags.push_back(0xFFFFFFFFu); tags.push_back(0x80000000u); }
@@ -739,6 +765,7 @@ static int run_c16(uint64_t index, Prng &r, int sampled_per_block) {
   g_kinds = std::string(kind_name(loader)) + "<-" + kind_name(imgkind); g_shape = "misdirected";
   g_spec += "|part=B|loader=" + std::string(kind_name(loader)) + "|image=" + kind_name(imgkind) + "|opt=" + std::to_string(opt);
   const std::string &img = valid_image(imgkind);
+  if (img.empty()) { emit("precondition_failed", "no_valid_image", kind_name(imgkind)); return 0; }
   begin("var", "misdirected-image");
   std::string f = img + poison(r, 32);
   LoadOut lo = load_image(loader, f, 0, ChunkPolicy::draw(r, f.size()), (uint)opt, false);
@@ -767,8 +794,13 @@ static int run_mode(const std::string &mode, uint64_t base, uint64_t index, cons
     m = fam[r.below(6)];
     g_spec += "|family=" + m;
   }
+  if (ov.count("order")) { // explicit plan (replay of a minimised C14 / C16-part-C history)
+    C14Plan pl = c14_from_spec(ov);
+    g_spec += "|" + c14_spec(pl);
+    return run_c14_plan(pl, rx, mode == "C16");
+  }
   if (m == "C14") {
-    C14Plan pl = ov.count("order") ? c14_from_spec(ov) : gen_c14(r, false);
+    C14Plan pl = gen_c14(r, false);
     g_spec += "|" + c14_spec(pl);
     return run_c14_plan(pl, rx, false);
   }
